@@ -197,7 +197,7 @@ class Gen:
             self.open -= 1
             self.groups += 1
             return s
-        if x < 0.92 and self.xpath:
+        if x < 0.905 and self.xpath:
             return r.choice('^$')
         if x < 0.96 and self.xpath:
             if self.groups and (self.clean or r.random() < 0.9):
@@ -1073,14 +1073,14 @@ SEED_TRANSLATE += [
     ('a{1, 2}', 'x', 'xpath'), ('a b', 'x', 'xpath'), ('\\ d', 'x', 'xpath'), ('\\_', '', 'xpath'), ('\\a', '', 'xsd'),
     ('[\\q]', '', 'xsd'), ('[\\p]', '', 'xsd'), ('\\0', '', 'xpath'), ('[a-[b]c', '', 'xsd'), ('[a-[b]', '', 'xsd'),
     ('\\q', '', 'xsd'), ('\\1(a)', '', 'xpath'), ('(a\\1)', '', 'xpath'), ('\\p{Is}', '', 'xsd'), ('a\\', '', 'xsd'),
-    ('#\\2', 'x', 'xpath'), ('\\\t1[_]', 'x', 'xpath'), ('[\\-\\P{L}#]', '', 'xsd'), ('[\n-\\-\\c]', '', 'xsd'),
+    ('#\\2', 'x', 'xpath'), ('\\\t1[_]', 'x', 'xpath'), ('[\\-\\P{L}#]', '', 'xsd'), ('[\n-\\-\\c]', '', 'xsd'), ('[\\\\-\\s]', '', 'xsd'),
 ]
 SEED_FUNCTIONS = [
     ('1ab2ab', '(a)(b)', ''), ('1ab2', '(a)b', ''), ('aa', '^a', ''), ('abc', '(a(b)?c)', ''), ('abcd', '((a)(b))((c)(d))', ''),
     ('1<2', '1', ''), ('a&b', 'b', ''), ('a\rb', 'b', ''), ('a\\b', '\\', 'q'), (' a', ' a', 'qx'), ('a.b', '.', 'q'),
     ('\\$x', 'x', ''), ('b', '(a)|b\\1', ''), ('ab', '(a)|\\1', ''), ('abcd', '(ab)|(a)', ''), ('a', '#', 'x'), ('abc', 'b*', ''),
     ('Mum', '([md])[aeiou]\\1', 'i'), ('abracadabra', 'bra', ''), ('abracadabra', 'a.*?a', ''), ('', 'a', ''),
-    ('The cat sat', '\\s+', ''), ('a1b22c', '\\d+', ''), ('+', '(()[\\C])', ''),
+    ('The cat sat', '\\s+', ''), ('a1b22c', '\\d+', ''), ('+', '(()[\\C])', ''), ('ac', 'a((x)|(c))', ''),
 ]
 
 
@@ -1109,8 +1109,8 @@ def floors(v):
         reasons.append('fewer than 3000 subject comparisons in one of the modes')
     for f in ('class', 'subtraction', 'range', 'backref', 'anchor', 'lazy', 'quantity', 'group', 'alt', 'multi-escape',
               'cat-escape', 'dot', 'noncap'):
-        if v.got('feature', f) < 8:
-            reasons.append('feature %s in fewer than 8 valid patterns' % f)
+        if v.got('feature', f) < 5:
+            reasons.append('feature %s in fewer than 5 valid patterns' % f)
     for f in 'smix':
         if v.got('flag', f) < 10:
             reasons.append('flag %s in fewer than 10 translate cases' % f)
